@@ -56,7 +56,7 @@ pub struct CoroutinePool<'p> {
     //工作协程组
     workers: Scheduler<'p>,
     //当前协程数
-    running: AtomicUsize,
+    running: Arc<AtomicUsize>,
     //尝试取出任务失败的次数
     pop_fail_times: AtomicUsize,
     //最小协程数，即核心协程数
@@ -136,11 +136,12 @@ impl<'p> CoroutinePool<'p> {
         keep_alive_time: u64,
     ) -> Self {
         let mut workers = Scheduler::new(name, stack_size);
-        workers.add_listener(CoroutineCreator::default());
+        let running = Arc::new(AtomicUsize::new(0));
+        workers.add_listener(CoroutineCreator::new(running.clone()));
         CoroutinePool {
             state: Cell::new(PoolState::Running),
             workers,
-            running: AtomicUsize::new(0),
+            running,
             pop_fail_times: AtomicUsize::new(0),
             min_size: AtomicUsize::new(min_size),
             max_size: AtomicUsize::new(max_size),
@@ -399,6 +400,8 @@ impl<'p> CoroutinePool<'p> {
             return Ok(());
         }
         let create_time = now();
+        // this worker is counted by the pool that creates it, wherever it happens to run
+        let home_running = self.running.clone();
         self.submit_worker_co(
             move |suspender, ()| {
                 loop {
@@ -407,7 +410,7 @@ impl<'p> CoroutinePool<'p> {
                         pool.reset_pop_fail_times();
                         continue;
                     }
-                    let running = pool.get_running_size();
+                    let running = home_running.load(Ordering::Acquire);
                     if now().saturating_sub(create_time) >= pool.get_keep_alive_time()
                         && running > pool.get_min_size()
                         || pool.can_recycle()
